@@ -22,7 +22,7 @@ def run(chk):
     rng = chk.rng.fork("c02")
     progs, icases, mcases = [], [], []
     for i in range(n):
-        p = asm_gen.gen_frozen_prog(rng) if rng.chance(0.03) else asm_gen.gen_scope_prog(rng) if rng.chance(0.03) else asm_gen.gen_chain_prog(rng) if rng.chance(0.1) else asm_gen.gen_shift_prog(rng) if rng.chance(0.15) else asm_gen.gen_prog(rng, size_static=rng.chance(0.25), collide=rng.chance(0.35), boundary=rng.chance(0.2))
+        p = asm_gen.gen_pcassert_prog(rng) if rng.chance(0.03) else asm_gen.gen_frozen_prog(rng) if rng.chance(0.03) else asm_gen.gen_scope_prog(rng) if rng.chance(0.03) else asm_gen.gen_chain_prog(rng) if rng.chance(0.1) else asm_gen.gen_shift_prog(rng) if rng.chance(0.15) else asm_gen.gen_prog(rng, size_static=rng.chance(0.25), collide=rng.chance(0.35), boundary=rng.chance(0.2))
         b = rng.weighted([(1, 5), (2, 10), (3, 15), (4, 15), (5, 10), (10, 25), (11, 5), (30, 15)]) if rng.chance(0.8) else rng.range(1, 30)
         s, m = rng.chance(0.5), rng.chance(0.5)
         progs.append((p, b, s, m))
